@@ -123,6 +123,18 @@ def run(run, binfo):
         snap = copy.copy(t)
         keys_before = {k: id(v) for k, v in t.items()}
         name = 'alias' if depth == 2 else 'the:policy'
+        if len(pinfo) % 2:
+            # the encoding is the one configured when the request is made: the same loaded rule was used under
+            # the other setting just before
+            e.conf.set_override('remote_content_type',
+                                'application/json' if form else 'application/x-www-form-urlencoded', group='oslo_policy')
+            try:
+                e.enforce(name, copy.copy(t), copy.deepcopy(cr))
+            except Exception:   # noqa
+                pass
+            e.conf.set_override('remote_content_type',
+                                'application/x-www-form-urlencoded' if form else 'application/json', group='oslo_policy')
+            _last_request.clear()
         res = e.enforce(name, t, cr)
         run.evaluations += 1
         req = dict(_last_request)
